@@ -421,6 +421,80 @@ theorem C05_broadcast_reaches_every_healthy (f : Facts) (s : St) (m a : Nat) (ha
   refine ⟨?_, rfl⟩
   simp [reaches, List.mem_filter, ha]
 
+/-- a server with `n` sessions, every one of them with an open, healthy stream. -/
+def allOpen (n : Nat) : St := { nextSid := n, sessions := List.range n, streams := List.range n }
+
+/-- the history the harness drives for size `n`: `n` sessions, `n` streams. -/
+def openAll (n : Nat) : List Op := (List.range n).map (fun _ => Op.newSession) ++ (List.range n).map Op.openStream
+
+/-- **Every session with an open stream, for every number of sessions**: with `n ≥ 1` sessions that all have a healthy
+    stream a broadcast answers `n` and writes exactly one frame to every one of the `n` sessions; a filtered send answers the
+    number of selected sessions (none failed) and writes one frame to each of those and none to the others. -/
+theorem C05_broadcast_all_open (f : Facts) (n m : Nat) (hn : 0 < n) :
+    let r := step (.streamable false) f (allOpen n) (.broadcast m)
+    r.2 = .count n none ∧
+    r.1.delivered = (List.range n).map (fun a => (a, ⟨.notif, a, m⟩)) ∧
+    ∀ a, a < n → (r.1.delivered.filter (fun x => x.1 = a)).length = 1 := by
+  intro r
+  have hfil : (allOpen n).sessions.filter (reaches (allOpen n)) = List.range n := by
+    apply List.filter_eq_self.mpr
+    intro a ha
+    have : a ∈ List.range n := ha
+    simp [reaches, hasStream, allOpen, List.mem_range.mp this]
+  have hw : WF (allOpen n) := ⟨List.nodup_range, fun a ha => List.mem_range.mp ha⟩
+  have hc := C05_broadcast_count f (allOpen n) m hw
+  simp only [hfil] at hc
+  obtain ⟨hret, hdel, hone, _⟩ := hc
+  have hlen : (List.range n).length = n := List.length_range
+  refine ⟨?_, ?_, ?_⟩
+  · rcases hret with h | ⟨_, h0⟩
+    · rw [hlen] at h; exact h
+    · rw [hlen] at h0; omega
+  · have : (allOpen n).delivered = [] := rfl
+    rw [this] at hdel; simpa using hdel
+  · intro a ha
+    have : (allOpen n).delivered = [] := rfl
+    rw [this] at hdel
+    have hd : r.1.delivered = (List.range n).map (fun a => notifFrame a m) := by simpa [notifFrame] using hdel
+    rw [hd]
+    exact hone a (List.mem_range.mpr ha)
+
+theorem C05_filtered_all_open (f : Facts) (n m : Nat) (sel : List Nat) :
+    let chosen := (List.range n).filter (sel.contains ·)
+    let r := step (.streamable false) f (allOpen n) (.filtered sel m)
+    r.2 = .counts chosen.length 0 none ∧
+    r.1.delivered = chosen.map (fun a => (a, ⟨.notif, a, m⟩)) := by
+  intro chosen r
+  have hfil : chosen.filter (reaches (allOpen n)) = chosen := by
+    apply List.filter_eq_self.mpr
+    intro a ha
+    have : a ∈ List.range n := (List.mem_filter.mp ha).1
+    simp [reaches, hasStream, allOpen, List.mem_range.mp this]
+  have hret : r.2 = (if chosen.length - (chosen.filter (reaches (allOpen n))).length > 0 ∧ (chosen.filter (reaches (allOpen n))).length = 0
+      then .counts 0 (chosen.length - (chosen.filter (reaches (allOpen n))).length) (some .allFailed)
+      else .counts (chosen.filter (reaches (allOpen n))).length (chosen.length - (chosen.filter (reaches (allOpen n))).length) none) := rfl
+  have hdel : r.1.delivered = (allOpen n).delivered ++ (chosen.filter (reaches (allOpen n))).map (fun a => notifFrame a m) := rfl
+  rw [hfil] at hret hdel
+  refine ⟨?_, ?_⟩
+  · rw [hret]; simp
+  · rw [hdel]; simp [allOpen, notifFrame]
+
+/-- the state after the harness's opening history is `allOpen n` (sizes the harness drives, among them the ones that do
+    not divide evenly into 2, 3, 4, 5 or 8 parts). -/
+theorem C05_open_all_sizes :
+    ∀ n ∈ [1, 2, 3, 5, 7, 8, 9, 10, 11, 13, 14, 15, 17, 23, 31, 37, 40],
+      let s := (run (.streamable false) factsToday (init (.streamable false) 0) (openAll n)).1
+      s.sessions = (allOpen n).sessions ∧ s.streams = (allOpen n).streams ∧ s.broken = [] ∧ s.delivered = [] ∧ s.nextSid = n := by decide
+
+/-- instances: 10, 11, 13, 17 and 40 sessions, all with open streams — the broadcast answers the number of sessions and
+    each of them gets the frame exactly once; the filtered send to every second one answers ⌈n/2⌉. -/
+theorem C05_broadcast_sizes_examples :
+    ∀ n ∈ [10, 11, 13, 17, 40],
+      let r := run (.streamable false) factsToday (init (.streamable false) 0)
+        (openAll n ++ [.broadcast 1, .filtered ((List.range n).filter (· % 2 = 0) ++ [n + 3]) 2])
+      r.2.drop (2 * n) = [.count n none, .counts ((n + 1) / 2) 0 none] ∧
+      (List.range n).all (fun a => outboxTags r.1 a .notif = if a % 2 = 0 then [1, 2] else [1]) = true := by decide
+
 /-- a send to a session whose stream fails its writes reports the failure and writes nothing. -/
 theorem C05_send_to_broken_stream (f : Facts) (s : St) (a m : Nat) (h1 : hasStream s a = true) (h2 : s.broken.contains a = true) :
     step (.streamable false) f s (.send a m) = (s, .err .writeFailed) := by
@@ -814,6 +888,15 @@ theorem C05_fact_keys :
           [t!"SSEServer.handleResponseMessage", t!"SSEServer.handleRootsListResponse"]),
         (t!"stdio_server.responses", t!"uint64OfInt64", [t!"parseRequestID"], true, [t!"stdioServerInternal.HandleResponse"]),
         (t!"streamable_server.pendingRequests", t!"idKey", [t!"idKey"], true, [t!"responseManager.DeliverResponse"]) ] := by decide
+
+/-- **No deadline is left on a listening stream's connection**: the only deadlines / connection timeouts library code sets
+    (root package, internal/sseutil, internal/httputil) are the two `SetWriteDeadline(time.Now())` calls on the exit path of
+    the GET handlers (`handleSSE`, `handleGet`: they end the handler, nothing is written afterwards). No write of a
+    notification or request sets a deadline that a later write could run into. -/
+theorem C05_fact_no_stream_deadlines :
+    Mcp.Gen.pdDeadlineSites =
+      [ ⟨t!"sse_server.go", t!"handleSSE", t!"SetWriteDeadline", t!"time.Now()"⟩,
+        ⟨t!"streamable_server.go", t!"handleGet", t!"SetWriteDeadline", t!"time.Now()"⟩ ] := by decide
 
 /-! ## non-vacuity -/
 
